@@ -143,11 +143,225 @@ def c07_4(ctx):
         _refcheck(ctx, SP, "Spendable." + nm, "sp_" + nm.strip("_"), "spendable:%s" % nm)
 
 
+
+# ------------------------------------------------------------------ C07.6
+_LOSSY = ("float", "round", "math.floor", "math.ceil", "math.trunc", "Decimal", "decimal.Decimal", "Fraction")
+
+
+def lossy_numeric_sites(node):
+    """calls / operators in a function that route an integer through a floating point (or decimal) value"""
+    out = []
+    for n in ast.walk(node):
+        if isinstance(n, ast.Call) and (df.dotted(n.func) or "") in _LOSSY:
+            out.append((n, "%s(..)" % df.dotted(n.func)))
+        elif isinstance(n, ast.BinOp) and isinstance(n.op, ast.Div):
+            out.append((n, "true division `/`"))
+        elif isinstance(n, ast.Constant) and isinstance(n.value, float):
+            out.append((n, "float constant %r" % n.value))
+    return out
+
+
+def _split_views(func):
+    """-> (covered absolute field indices | None when some use cannot be read, number of uses read) of the list made by `text.split(sep)`
+    in a reader: which fields of the text form the function ever looks at.  A view is (offset, limit)."""
+    views = {}          # local name -> (offset, limit)
+
+    def view_of(e):
+        if isinstance(e, ast.Call) and isinstance(e.func, ast.Attribute) and e.func.attr == "split":
+            return (0, None)
+        if isinstance(e, ast.Name) and e.id in views:
+            return views[e.id]
+        if isinstance(e, ast.BinOp) and isinstance(e.op, ast.Add):
+            return view_of(e.left)                      # padding with defaults on the right
+        if isinstance(e, ast.Call) and df.dotted(e.func) in ("list", "tuple") and len(e.args) == 1:
+            return view_of(e.args[0])
+        if isinstance(e, ast.Subscript) and isinstance(e.slice, ast.Slice):
+            v = view_of(e.value)
+            if v is None:
+                return None
+            lo = df.const_int(e.slice.lower) if e.slice.lower is not None else 0
+            hi = df.const_int(e.slice.upper) if e.slice.upper is not None else None
+            if e.slice.step is not None or lo is None or lo < 0 or (e.slice.upper is not None and (hi is None or hi < 0)):
+                return "?"
+            lim = None if hi is None else max(hi - lo, 0)
+            if v[1] is not None:
+                lim = v[1] - lo if lim is None else min(lim, v[1] - lo)
+            return (v[0] + lo, lim)
+        return None
+
+    covered, unread, uses = set(), False, 0
+    parents = {}
+    for n in ast.walk(func):
+        for c in ast.iter_child_nodes(n):
+            parents[id(c)] = n
+
+    def use(e, v):
+        """what the context of expression e (a view) looks at"""
+        nonlocal unread, uses
+        par = parents.get(id(e))
+        uses += 1
+        if v == "?":
+            unread = True
+            return
+        off, lim = v
+        if isinstance(par, ast.Subscript) and par.value is e:
+            if isinstance(par.slice, ast.Slice):
+                uses -= 1
+                return                                  # the slice is a view of its own; its use counts
+            k = df.const_int(par.slice)
+            if k is None or k < 0:
+                unread = True
+            elif lim is None or k < lim:
+                covered.add(off + k)
+            return
+        if isinstance(par, ast.Assign) and par.value is e:
+            t = par.targets[0]
+            if isinstance(t, ast.Name):
+                uses -= 1
+                return                                  # a name for the view
+            if isinstance(t, (ast.Tuple, ast.List)) and not any(isinstance(x, ast.Starred) for x in t.elts):
+                covered.update(range(off, off + len(t.elts)))
+                return
+            unread = True
+            return
+        if isinstance(par, ast.AnnAssign) and par.value is e and isinstance(par.target, ast.Name):
+            uses -= 1
+            return
+        if isinstance(par, ast.comprehension) and par.iter is e:
+            if lim is None:
+                unread = True
+            else:
+                covered.update(range(off, off + lim))
+            return
+        if isinstance(par, ast.BinOp) and isinstance(par.op, ast.Add) and par.left is e:
+            uses -= 1
+            return                                      # padded: the padded list's use counts
+        if isinstance(par, ast.Call) and df.dotted(par.func) == "len":
+            return
+        if isinstance(par, ast.Call) and df.dotted(par.func) in ("list", "tuple") and len(par.args) == 1:
+            uses -= 1
+            return
+        unread = True
+
+    # names first (in source order), then every expression that is a view
+    order = sorted((n for n in ast.walk(func) if isinstance(n, (ast.Assign, ast.AnnAssign))), key=lambda n: (n.lineno, n.col_offset))
+    for st in order:
+        tgt = st.targets[0] if isinstance(st, ast.Assign) else st.target
+        if isinstance(tgt, ast.Name) and st.value is not None:
+            v = view_of(st.value)
+            if v is not None:
+                views[tgt.id] = v
+    for n in ast.walk(func):
+        if isinstance(n, ast.Name) and isinstance(n.ctx, ast.Store):
+            continue
+        v = view_of(n) if isinstance(n, (ast.Call, ast.Name, ast.BinOp, ast.Subscript)) else None
+        if v is not None:
+            use(n, v)
+    return (None if unread else covered), uses
+
+
+def c07_6(ctx):
+    """field values cross the codecs unchanged: no floating point on an amount path, the writers write the attribute itself, the
+    readers hand the decoded field to the constructor as decoded, and the text reader looks at every field the writer emits"""
+    # self-check of the detectors (rules whose expected count on the tree is zero keep a positive example)
+    probe = ast.parse("def f(t):\n    p = t.split('/')\n    a, b = p[:2]\n    c = [int(x) for x in p[2:4]]\n    return int(float(a)), b, c\n")
+    cov, _n = _split_views(probe.body[0])
+    if cov != {0, 1, 2, 3} or len(lossy_numeric_sites(probe)) != 1:
+        raise AnalysisError("C07.6 detectors failed their self-check (%s)" % (cov,))
+    # (a) exact integers
+    for rel, dotted in ((SP, "Spendable.from_text"), (SP, "Spendable.from_dict"), (SP, "Spendable.as_text"), (SP, "Spendable.as_dict"), (SP, "Spendable.parse"), (SP, "Spendable.stream"),
+                        (SP, "Spendable.__init__"), (TXOUT, "TxOut.parse"), (TXOUT, "TxOut.stream"), (TXOUT, "TxOut.__init__"), (TXIN, "TxIn.parse"), (TXIN, "TxIn.stream"),
+                        (TX, "Tx.parse_unspents"), (TX, "Tx.stream_unspents"), (TX, "Tx.parse"), (TX, "Tx.stream"), (SINT, "parse_satoshi_int"), (SINT, "stream_satoshi_int")):
+        fi = ctx.func(rel, dotted)
+        sites = lossy_numeric_sites(sym.expanded(ctx, fi))
+        ctx.check(not sites, "exact-integers:%s" % dotted, ctx.where(fi, sites[0][0]) if sites else ctx.where(fi),
+                  "%s routes a field through %s: amounts and indices up to 2^64 do not survive a double (2^53 + 1 comes back as 2^53)" % (dotted, sites[0][1] if sites else ""),
+                  sample={"function": dotted, "floating_point_sites": 0})
+    # (b) the writers write the attribute itself; the readers construct from the decoded fields as decoded
+    for rel, cls in ((TXOUT, "TxOut"), (TXIN, "TxIn")):
+        wfi = ctx.func(rel, cls + ".stream")
+        w = sym.walk(ctx, wfi)
+        n = 0
+        for e in sym.calls_matching(w, lambda t: t == "stream_struct" or t.endswith(".stream_struct")):
+            for a in e.call.args[2:]:
+                n += 1
+                t = norm(a)
+                if isinstance(a, ast.Constant) or (isinstance(a, ast.Attribute) and norm(a.value) == "self"):
+                    ctx.ok("writer-field-unchanged:%s" % cls, sample={"writer": cls + ".stream", "value": t})
+                elif any(isinstance(x, ast.Attribute) and norm(x.value) == "self" for x in ast.walk(a)) and any(isinstance(x, (ast.BinOp, ast.UnaryOp)) for x in ast.walk(a)):
+                    ctx.bad("writer-field-unchanged:%s" % cls, ctx.where(wfi, e.node), "%s.stream writes `%s`: the field is transformed on its way to the wire, so what is read back is not what was stored" % (cls, t[:120]))
+                else:
+                    ctx.undecided("writer-field-unchanged:%s" % cls, ctx.where(wfi, e.node), "%s.stream writes `%s`; this rule reads attribute reads and constants only" % (cls, t[:100]))
+        if n == 0:
+            ctx.undecided("writer-field-unchanged:%s" % cls, ctx.where(wfi), "%s.stream: no stream_struct call found" % cls)
+        rfi = ctx.func(rel, cls + ".parse")
+        wr = sym.walk(ctx, rfi)
+        rets = [e for e in wr.exits if e.kind == "return" and e.value is not None]
+        for e in rets:
+            v = wr.sub(e.value)
+            if not isinstance(v, ast.Call):
+                ctx.undecided("reader-field-unchanged:%s" % cls, ctx.where(rfi), "%s.parse returns `%s`" % (cls, norm(v)[:100]))
+                continue
+            okk = True
+            for a in list(v.args) + [k.value for k in v.keywords]:
+                inner = a.value if isinstance(a, ast.Starred) else a
+                is_field = (isinstance(inner, ast.Call) and "parse_struct" in norm(inner.func)) or \
+                           (isinstance(inner, ast.Subscript) and isinstance(inner.value, ast.Call) and "parse_struct" in norm(inner.value.func) and df.const_int(inner.slice) is not None)
+                if is_field or isinstance(inner, ast.Constant):
+                    continue
+                okk = False
+                if "parse_struct" in norm(inner) and any(isinstance(x, (ast.BinOp, ast.UnaryOp)) for x in ast.walk(inner)):
+                    ctx.bad("reader-field-unchanged:%s" % cls, ctx.where(rfi), "%s.parse hands `%s` to the constructor: the decoded field is transformed, so a value the writer accepts does not read back as itself" % (cls, norm(inner)[:140]))
+                else:
+                    ctx.undecided("reader-field-unchanged:%s" % cls, ctx.where(rfi), "%s.parse constructs from `%s`; this rule reads decoded fields only" % (cls, norm(inner)[:100]))
+            if okk:
+                ctx.ok("reader-field-unchanged:%s" % cls, sample={"reader": cls + ".parse", "constructs_from": norm(v)[:120]})
+        if not rets:
+            ctx.undecided("reader-field-unchanged:%s" % cls, ctx.where(rfi), "%s.parse: no return found" % cls)
+    # (c) the text reader looks at every field the text writer emits
+    at = ctx.func(SP, "Spendable.as_text")
+    nfields = None
+    for n in ast.walk(sym.expanded(ctx, at)):
+        if isinstance(n, ast.Call) and isinstance(n.func, ast.Attribute) and n.func.attr == "join" and len(n.args) == 1 and isinstance(n.args[0], (ast.List, ast.Tuple)):
+            nfields = len(n.args[0].elts)
+    ft = ctx.func(SP, "Spendable.from_text")
+    if nfields is None:
+        ctx.undecided("text-reader-covers-fields", ctx.where(at), "Spendable.as_text is not a join of a literal list of fields")
+    else:
+        cov, uses = _split_views(sym.expanded(ctx, ft))
+        if cov is None or uses == 0:
+            ctx.undecided("text-reader-covers-fields", ctx.where(ft), "Spendable.from_text uses the split text in a form this rule does not read")
+        else:
+            missing = sorted(set(range(nfields)) - cov)
+            ctx.check(not missing, "text-reader-covers-fields", ctx.where(ft),
+                      "Spendable.as_text writes %d fields; Spendable.from_text never looks at field(s) %s of the split text, so they do not survive the round trip" % (nfields, missing),
+                      sample={"fields_written": nfields, "fields_read": sorted(cov)})
+
 # ------------------------------------------------------------------ C07.5
 def c07_5(ctx):
     _refcheck(ctx, TX, "Tx.stream_unspents", "tx_stream_unspents", "unspents-writer")
     _refcheck(ctx, TX, "Tx.parse_unspents", "tx_parse_unspents", "unspents-reader")
     _refcheck(ctx, CTX, "Tx.set_unspents", "btx_set_unspents", "unspents-count")
+    # the reader takes a record for `unknown` exactly when its AMOUNT is zero (the property states the extension for non-zero
+    # amounts; a spent output with an empty script and a non-zero amount is a real output): the condition under which None is
+    # recorded, over the function's inputs, whatever the local is called
+    pu = ctx.func(TX, "Tx.parse_unspents")
+    w = sym.walk(ctx, pu)
+    nones = [(elt, reach) for (_l, _n, elt, reach) in sym.appended_in_loops(w) if isinstance(elt, ast.Constant) and elt.value is None]
+    if not nones:
+        raise Undecided("Tx.parse_unspents: no `None` appended in a loop; this rule reads the append loop only")
+    for _elt, reach in nones:
+        atoms = [a for a in (gi.f_opaques(reach) if reach not in (True, False) else []) if isinstance(a, str)]
+        amount = [a for a in atoms if ".coin_value" in a and (a.startswith("0 == ") or a.endswith(" == 0") or a.startswith("truthy("))]
+        if amount and all(".coin_value" in a for a in atoms):
+            zero = ("op", amount[0]) if not amount[0].startswith("truthy(") else ("not", ("op", amount[0]))
+            ctx.check(sym.entails(reach, zero) and sym.entails(zero, reach), "unknown-iff-zero-amount", ctx.where(pu),
+                      "Tx.parse_unspents records `unknown` under `%s`, which is not `the amount is zero`" % ct.fmt_formula(reach)[:120], sample={"unknown_when": ct.fmt_formula(reach)[:120]})
+        elif atoms and not any(".coin_value" in a for a in atoms):
+            ctx.bad("unknown-iff-zero-amount", ctx.where(pu), "Tx.parse_unspents records `unknown` under `%s`: the amount is not looked at, so a spent output that merely %s is lost on the way back"
+                    % (ct.fmt_formula(reach)[:120], "has an empty script" if any(".script" in a for a in atoms) else "satisfies that test"))
+        else:
+            ctx.undecided("unknown-iff-zero-amount", ctx.where(pu), "Tx.parse_unspents records `unknown` under `%s`; this rule reads tests of the amount only" % (ct.fmt_formula(reach)[:120] if reach not in (True, False) else reach))
 
 
 OBLIGATIONS = [
@@ -156,4 +370,6 @@ OBLIGATIONS = [
     Ob("C07.3", "compact-size partition: writer intervals and reader prefixes symmetric", c07_3, floor=8, engines="SYM,GI", breaks_if="lengths/counts of exactly 252, 253, 65535, 65536, 2^32"),
     Ob("C07.4", "Spendable binary / text / dict forms are field-symmetric with exact integer conversions", c07_4, floor=8, engines="SYM,PM", breaks_if="amounts above 2^53 in the text form; binary form"),
     Ob("C07.5", "unspents extension: zero amount <-> unknown", c07_5, floor=3, engines="SYM", breaks_if="spent output with empty script and non-zero amount"),
+    Ob("C07.6", "field values cross the codecs unchanged: exact integers, writers write the attribute, readers construct from the decoded field, the text reader covers every field", c07_6, floor=20, engines="SYM,DF",
+       breaks_if="amounts >= 2^53 in text / dict form; amounts >= 2^63 on the wire; a spendable with block_index_spent != 0"),
 ]
